@@ -34,6 +34,8 @@ int64_t nowNs();
 // explicit scheduling points for harness code
 void yield(const char* label = "yield");                       // visible step, always enabled
 void pointIf(const std::function<bool()>& enabled, const char* label);  // blocks (schedules others) until enabled() holds
+// free harness-level choice (recorded in the trace like a scheduler choice; costs no preemption)
+int choose(int n, const char* label = "choice");
 int self();                                                    // scheduler thread id, -1 if unscheduled
 bool othersBlocked();                                          // no other thread is enabled right now (for use inside pointIf predicates)
 
